@@ -4,7 +4,9 @@ package main
 
 import (
 	"fmt"
+	"go/ast"
 	"go/types"
+	"os"
 	"strings"
 
 	"golang.org/x/tools/go/ssa"
@@ -24,9 +26,23 @@ func (x *Exec) ghostAt(st *State, fi int, anchor, when string, res *Value) {
 
 // ghostAtX: like ghostAt, with extra named values (call arguments arg0..argN)
 // visible to the ghost statements.
+var debugAnchors = os.Getenv("HV_ANCHORS") != ""
+
+func (x *Exec) findGhostDef(name string) *GhostDef {
+	for _, cf := range x.w.contracts {
+		if gd, ok := cf.GhostDefs[name]; ok {
+			return gd
+		}
+	}
+	return nil
+}
+
 func (x *Exec) ghostAtX(st *State, fi int, anchor, when string, res *Value, extra map[string]Value) {
 	if fi >= len(st.frames) {
 		return
+	}
+	if debugAnchors && x.muted == 0 && when != "before" {
+		fmt.Fprintf(os.Stderr, "anchor %s: %s\n", st.frames[fi].fn.Name(), anchor)
 	}
 	fr := st.frames[fi]
 	c := fr.contract
@@ -136,6 +152,39 @@ func (x *Exec) ghostStmtEnv(st *State, fi int, c *Contract, g *GhostStmt, s stri
 		label, text := splitLabel(strings.TrimSpace(s[len("assume"):]))
 		x.assumes = append(x.assumes, fmt.Sprintf("%s: assume[%s] %s", c.Key, label, text))
 		st.assume(Implies(cond, env.EvalBool(text)))
+	case strings.HasPrefix(s, "unfold "):
+		// unfold f(args): one ground instance of f's ghost definition
+		call, err := parseSpec(strings.TrimSpace(s[len("unfold "):]))
+		if err != nil {
+			env.fail("%v", err)
+		}
+		ce, ok := call.(*ast.CallExpr)
+		if !ok {
+			env.fail("unfold needs a call")
+		}
+		id, ok := ce.Fun.(*ast.Ident)
+		if !ok {
+			env.fail("unfold needs a ghost function call")
+		}
+		gd := x.findGhostDef(id.Name)
+		if gd == nil {
+			env.fail("unfold: no ghost def %s", id.Name)
+		}
+		if len(gd.Params) != len(ce.Args) {
+			env.fail("unfold %s: want %d args", id.Name, len(gd.Params))
+		}
+		lhs := env.eval(ce)
+		n := env.child()
+		n.vars = map[string]Value{}
+		n.useCells = false
+		for i, a := range ce.Args {
+			n.vars[gd.Params[i]] = env.eval(a)
+		}
+		if p := x.w.typesPkg(gd.Pkg); p != nil {
+			n.pkg = p
+		}
+		rhs := n.EvalText(gd.Body)
+		st.assume(Implies(cond, Eq(lhs.T, rhs.T)))
 	case strings.HasPrefix(s, "emit "):
 		ev := env.EvalText(strings.TrimSpace(s[5:]))
 		x.emit(st, ev.T, cond)
